@@ -119,6 +119,22 @@ CHECKS = {
             'are compared byte for byte across reruns, thread counts and the no-pthread/no-getopt/no-libgen/no-strdup builds.',
             'Worker interleavings are exercised with real threads (1..64 workers) and byte-identity of the result; owning the '
             'schedule needs the vsched harness (DESIGN Appendix A).', 'DESIGN.md section 7 C09'),
+    'C12': ('F3 WASI agent (c/wasiagent.c + /repo/wasi/wasi.c under ASan+UBSan) + Hypothesis RuleBasedStateMachine',
+            'stateful PBT (Hypothesis rule-based state machine), differential against the host kernel: every WASI call is mirrored '
+            'by the corresponding POSIX call on a byte-identical mirror tree; shrunk histories become replay files',
+            'Model-based history search over path_open/fd_write/fd_pwrite/fd_read/fd_pread/fd_seek (both ABIs)/fd_tell/'
+            'fd_filestat_get (both layouts)/fd_close with generated iovec shapes, offsets up to 2^33 and all flag combinations; '
+            'errno, counts, 64-bit offsets, data, guest-memory canaries, file position after every step and the final trees are '
+            'compared with the POSIX mirror.',
+            'The kernel (tmpfs) is the reference; the agent declares the imports with the witx signatures a translated module uses.',
+            'DESIGN.md section 7 C12'),
+    'C13': ('F3 WASI agent + Hypothesis RuleBasedStateMachine',
+            'stateful PBT against a descriptor-table model: live / closed / never-issued / huge descriptor numbers through every '
+            'descriptor-taking call of both ABIs, standard streams, pre-opens; ASan turns use-after-free/double-free into failures',
+            'History search with bundles of live and closed descriptors: freshness of new descriptors, EBADF from every call on '
+            'closed, never-issued, next-to-be-issued and huge numbers (incl. as directory handle and repeated close), bytes through '
+            'fds 0-2 reach the prepared files, pre-opens report their path; the agent runs under AddressSanitizer.',
+            'Trusts ASan to expose reads/frees of released host memory.', 'DESIGN.md section 7 C13'),
 }
 
 NOT_YET = {}
